@@ -210,6 +210,8 @@ type Service struct {
 	queueGroup     string                 // Queue group to use with CharQueueSubscribe
 	resetResources []string               // List of resource name patterns used on system.reset for resources. Defaults to serviceName+">"
 	resetAccess    []string               // List of resource name patterns used system.reset for access. Defaults to serviceName+">"
+	defaultRes     bool                   // Flag telling that resetResources holds the default ownership
+	defaultAccess  bool                   // Flag telling that resetAccess holds the default ownership
 	queryTQ        *timerqueue.Queue      // Timer queue for query events duration
 	queryDuration  time.Duration          // Duration to listen for query requests on a query event
 	workerCount    int                    // Number of workers handling resource requests
@@ -596,6 +598,8 @@ func (s *Service) SetReset(resources, access []string) *Service {
 func (s *Service) SetOwnedResources(resources, access []string) *Service {
 	s.resetResources = resources
 	s.resetAccess = access
+	s.defaultRes = false
+	s.defaultAccess = false
 	return s
 }
 
@@ -673,6 +677,17 @@ func (s *Service) serve(nc Conn) error {
 		atomic.StoreInt32(&s.state, stateStopped)
 		return err
 	}
+
+	// The default ownership is determined anew on every Serve, before the
+	// service counts as started: handlers may have been registered since the
+	// previous one.
+	if s.defaultRes {
+		s.resetResources = nil
+	}
+	if s.defaultAccess {
+		s.resetAccess = nil
+	}
+	s.setDefaultOwnership()
 
 	// Initialize fields
 	inCh := make(chan *nats.Msg, s.inChannelSize)
@@ -882,6 +897,7 @@ func (s *Service) TokenReset(subject string, tokenID ...string) {
 
 func (s *Service) setDefaultOwnership() {
 	if s.resetResources == nil {
+		s.defaultRes = true
 		if s.Contains(func(h Handler) bool {
 			return h.Get != nil || len(h.Call) > 0 || len(h.Auth) > 0 || h.New != nil
 		}) {
@@ -892,6 +908,7 @@ func (s *Service) setDefaultOwnership() {
 	}
 
 	if s.resetAccess == nil {
+		s.defaultAccess = true
 		if s.Contains(func(h Handler) bool {
 			return h.Access != nil
 		}) {
